@@ -106,14 +106,14 @@ class C01Oracle(Oracle):
             if isinstance(name, tuple):
                 arr = self.stored(k, name)
                 if arr is not None and not self.dim_agg:
-                    if np.isnan(arr[case]):
+                    if not np.isfinite(arr[case]):
                         return False, "party %d %s%g missing" % (k, name[0], name[1])
                 else:
                     ms = self.members(k)
                     if not ms:
                         continue
                     vals = [m[case] for m in ms]
-                    if name[0] == "thr" and all(np.isnan(v) for v in vals):
+                    if name[0] == "thr" and all(not np.isfinite(v) for v in vals) and all(np.isnan(v) for v in vals):
                         return False, "party %d all members missing" % k
                     if name[0] == "q" and any(np.isnan(v) for v in vals):
                         return False, "party %d a member missing" % k
@@ -123,7 +123,7 @@ class C01Oracle(Oracle):
                     if is_obs_role:
                         continue     # scored against another file's observations
                     continue         # (request would have failed; not our business here)
-                if np.isnan(arr[case]):
+                if not np.isfinite(arr[case]):
                     return False, "party %d %s missing" % (k, name)
         return True, None
 
@@ -174,7 +174,7 @@ class C01Oracle(Oracle):
                     for li in L:
                         for si in S:
                             v = arr[ti, li, si]
-                            if np.isnan(v):
+                            if not np.isfinite(v):
                                 continue
                             if clim is not None:
                                 c = clim[ti, li, si]
